@@ -2,7 +2,7 @@
    Only statements, each closed by [exact] of a lemma proved elsewhere, followed by
    Print Assumptions; plus Examples showing the hypotheses are satisfiable. *)
 From Coq Require Import ZArith List Bool.
-From BP Require Import Bits Schema Spec CMem CRt CCopyProofs.
+From BP Require Import Bits Schema Spec PyRt CMem CRt CCopyProofs CEncProofs CTop.
 Import ListNotations.
 Open Scope Z_scope.
 
@@ -37,3 +37,35 @@ Proof.
   split; [intros _; reflexivity|]. split; [intros H; discriminate H|]. split; [intros H; discriminate H|].
   vm_compute. reflexivity.
 Qed.
+
+(* Encode<Msg> of the generated code over the runtime (model: descriptors of the renderer
+   model, bitproto.c line by line, little-endian build and host) writes exactly Spec.wire,
+   for every schema tree the compiler accepts and every in-range value laid out in storage
+   as [store] does (two's complement in the storage width) *)
+Theorem C03_encode : forall t v,
+  c_schema t -> has_ty (norm t) v = true ->
+  c_encode_ty LE LE t (store LE (norm t) v) = COk (wire t v).
+Proof. exact c_encode_le. Qed.
+Print Assumptions C03_encode.
+
+(* hence the C encoder and the Python encoder (C01) emit the same bytes *)
+Theorem C03_interop_encode : forall t v,
+  c_schema t -> has_ty (norm t) v = true ->
+  exists bs, c_encode_ty LE LE t (store LE (norm t) v) = COk bs /\ py_encode t v = Ok bs.
+Proof. exact c_encode_eq_py_encode. Qed.
+Print Assumptions C03_interop_encode.
+
+Definition ex_t : ty :=
+  TMsg true [ (3, TAlias (TArr true 3 (TUint 3))); (1, TEnum 3 [0; 1; 5]); (2, TAlias (TInt 13));
+              (5, TMsg false [(2, TUint 5); (1, TBool)]); (7, TArr false 2 TByte); (9, TInt 32);
+              (10, TArr true 2 (TMsg false [(2, TUint 5); (1, TBool)])); (11, TArr false 3 (TInt 16));
+              (12, TArr false 2 (TAlias (TArr false 2 (TInt 7)))) ].
+Definition ex_v : val :=
+  VM [ (3, VL [VZ 1; VZ 7; VZ 2]); (1, VZ 5); (2, VZ (-171)); (5, VM [(2, VZ 19); (1, VB true)]);
+       (7, VL [VZ 255; VZ 1]); (9, VZ (-2));
+       (10, VL [VM [(2, VZ 3); (1, VB true)]; VM [(2, VZ 30); (1, VB false)]]);
+       (11, VL [VZ (-1); VZ 2; VZ (-32768)]); (12, VL [VL [VZ (-64); VZ 63]; VL [VZ (-1); VZ 5]]) ].
+Example C03_encode_nonvacuous :
+  c_schema ex_t /\ has_ty (norm ex_t) ex_v = true /\
+  c_encode_ty LE LE ex_t (store LE (norm ex_t) ex_v) = COk (wire ex_t ex_v) /\ length (wire ex_t ex_v) = 27%nat.
+Proof. vm_compute. repeat split; reflexivity. Qed.
